@@ -139,6 +139,11 @@ impl<P: MNT4Config> MNT4<P> {
 
         let mut f = <Fp4<P::Fp4Config>>::one();
 
+        // `q` was prepared from the point at infinity: e(P, O) = 1.
+        if q.double_coefficients.is_empty() {
+            return f;
+        }
+
         let mut add_idx: usize = 0;
 
         // code below gets executed for all bits (EXCEPT the MSB itself) of
